@@ -85,7 +85,8 @@ ScopeSupported(km, fs) == \A j \in 1..Len(fs) : fs[j].t \in 1..5 /\ fs[j].len > 
 Checkable(km, proto, st) ==
   CASE st.k = "data"  -> FieldsSupported(km, proto, st.def.fields)
     [] st.k = "odata" -> IF proto = "v9"
-                           THEN ScopeSupported(km, st.def.scope) /\ FieldsSupported(km, "v9", st.def.opts)
+                           THEN st.recs # <<>>      \* a body shorter than one record: the properties are silent
+                                /\ ScopeSupported(km, st.def.scope) /\ FieldsSupported(km, "v9", st.def.opts)
                                 /\ \A j \in 1..Len(st.def.opts) : st.def.opts[j].len > 0
                            ELSE FieldsSupported(km, proto, st.def.fields)
     [] OTHER -> TRUE
@@ -103,7 +104,7 @@ ValEq(v, e, kind) ==
     [] kind = "Ip4Addr"            -> v.tag = "Ip4" /\ v.b = e
     [] kind = "Ip6Addr"            -> v.tag = "Ip6" /\ v.b = e
     [] kind = "MacAddr"            -> v.tag = "Mac" /\ v.b = e
-    [] kind = "ProtocolType"       -> v.tag = "Proto" /\ v.b = e
+    [] kind = "ProtocolType"       -> v.tag = "Proto" /\ ProtoNameOk(e[1], v.s)   \* a symbolic type: its name must be right
     [] kind = "Vec"                -> v.tag = "Vec" /\ v.b = e
     [] kind = "Unknown"            -> v.tag \in {"Vec", "Unknown"} /\ v.b = e
     [] OTHER                       -> FALSE
